@@ -185,6 +185,8 @@ type Worker struct {
 	freshN      int
 	pathViol    int
 	stubs       map[string]Value
+	known       map[*Term]bool
+	maxDec      int
 	opaqueN     int
 
 	// stats
@@ -219,8 +221,28 @@ func (w *Worker) assume(t *Term) {
 	if t.IsTrue() {
 		return
 	}
+	if v, ok := w.known[t]; ok && v {
+		return
+	}
 	w.pc = append(w.pc, t)
 	w.S.Assert(t)
+	w.learn(t, true)
+}
+
+// learn records literals implied by an asserted constraint so that re-testing the same condition
+// later on the path (loops) needs no solver call.
+func (w *Worker) learn(t *Term, v bool) {
+	w.known[t] = v
+	switch {
+	case t.Op == OpNot:
+		w.learn(t.A[0], !v)
+	case t.Op == OpAnd && v:
+		w.learn(t.A[0], true)
+		w.learn(t.A[1], true)
+	case t.Op == OpOr && !v:
+		w.learn(t.A[0], false)
+		w.learn(t.A[1], false)
+	}
 }
 
 // feasible asks whether pc ∧ t is satisfiable. Unknown counts as feasible (sound for
@@ -355,6 +377,15 @@ type sibling struct{ d Decision }
 
 // decide takes one of n alternatives described by constraint terms.
 func (w *Worker) decide(alts []*Term, what string) int {
+	// already implied by the path condition?
+	for i, a := range alts {
+		if v, ok := w.known[a]; ok && v {
+			return i
+		}
+	}
+	if len(w.trace) > w.maxDec {
+		panic(pathEnd{endBudget, fmt.Sprintf("more than %d decisions on one path at %s", w.maxDec, what)})
+	}
 	if w.pos < len(w.prefix) {
 		d := w.prefix[w.pos]
 		w.pos++
@@ -429,6 +460,9 @@ func (w *Worker) concretize(t *Term, what string) uint64 {
 	for n := 0; ; n++ {
 		if n > maxConcretize {
 			w.outOfModel(fmt.Sprintf("more than %d values for %s", maxConcretize, what))
+		}
+		if len(w.trace) > w.maxDec {
+			panic(pathEnd{endBudget, fmt.Sprintf("more than %d decisions on one path at %s", w.maxDec, what)})
 		}
 		if w.pos < len(w.prefix) {
 			d := w.prefix[w.pos]
@@ -697,10 +731,12 @@ func (w *Worker) runPath(fn *ssa.Function, prefix []Decision) {
 	w.pc = w.pc[:0]
 	w.steps = 0
 	w.budget = w.E.Cfg.Budget
+	w.maxDec = 4000
 	w.depth = 0
 	w.choices = w.choices[:0]
 	w.vars = w.vars[:0]
 	w.varSeen = map[string]bool{}
+	w.known = map[*Term]bool{}
 	w.mapOrderAny = false
 	w.allocCap = 0
 	w.hashes = w.hashes[:0]
